@@ -38,7 +38,7 @@ CASE_TIMEOUT = 30
 TOL = 1e-10
 ST = {'-': 'Unsolved', '.': 'Solved', 'F': 'Failed', 'E': 'ErrorSt', 'S': 'Skipped'}
 ERRMODES = {'raise': 'ERaise', 'skip': 'ESkip', 'ignore': 'EIgnore', 'replace': 'EReplace'}
-EXN = {'ValueError': 'ValueError', 'IndexError': 'IndexError', 'KeyError': 'KeyError', 'NonConvergenceError': 'NonConvergenceError',
+EXN = {'DuplicateNameError': 'DuplicateNameError', 'ValueError': 'ValueError', 'IndexError': 'IndexError', 'KeyError': 'KeyError', 'NonConvergenceError': 'NonConvergenceError',
        'UnboundLocalError': 'UnboundLocalError', 'TypeError': 'TypeError', 'AttributeError': 'AttributeError',
        'InitialisationError': 'InitialisationError', 'NotImplementedError': 'NotImplementedError'}
 CAUSE_TAG = {'RuntimeWarning': 1, 'IndexError': 2, 'ZeroDivisionError': 10, 'KeyError': 11, 'RuntimeError': 12, 'ValueError': 13,
@@ -104,6 +104,8 @@ def impl(case):
         kw = {}
         if case.get('span') is not None:
             kw['span'] = sl.make_span(*case['span'])
+        if case.get('name') is not None:           # the linker's own name (default '_'): must not be a submodel id (fix f5ef8bd)
+            kw['name'] = case['name']
         L, out = _out_of(lambda: fsic.BaseLinker(subs, **kw))
         if out is not None:
             return {'out': out[:2]}
@@ -360,6 +362,11 @@ def _with_recorded(case, obs):
     return c
 
 
+def _c_name(case):
+    """the linker's own name as an identifier of the model: an integer name as given, the default '_' as an id no submodel has"""
+    return case['name'] if case.get('name') is not None else 999999
+
+
 def c_case(case, obs):
     kind = case['kind']
     case = _with_recorded(case, obs)
@@ -370,7 +377,7 @@ def c_case(case, obs):
             xr = '(Ret (%s, %s, %s))' % (c_span(obs['span']), lib.cZ(obs['LAGS']), lib.cZ(obs['LEADS']))
         else:
             xr = '(Raise %s)' % EXN.get(obs['out'][1], 'OtherError')
-        return '(CCtor %s %s %s)' % (subs, span, xr)
+        return '(CCtor %d%%nat %s %s %s)' % (_c_name(case), subs, span, xr)
     s0 = c_lstate(case, case['core'], case['subs'], [])
     if kind == 'history':
         calls = lib.clist('(%s, %s, %s)' % (c_sel(c['sel']), c_opts(c['opts']), lib.cZ(c['t'])) for c in case['calls'])
@@ -427,7 +434,7 @@ def explain(case, obs):
     if case['kind'] == 'ctor':
         subs = lib.clist('(%d%%nat, mkSub %s %s %s)' % (s['id'], c_span(s['span']), lib.cZ(s['lags']), lib.cZ(s['leads'])) for s in case['subs'])
         span = 'None' if case.get('span') is None else '(Some %s)' % c_span(case['span'])
-        return lib.coq_eval('explainC08', PREAMBLE, 'linker_ctor_M %s %s' % (subs, span))[-3000:]
+        return lib.coq_eval('explainC08', PREAMBLE, 'linker_init_M %d%%nat %s %s' % (_c_name(case), subs, span))[-3000:]
     s0 = c_lstate(case, case['core'], case['subs'], [])
     hooks = c_lscripts(case.get('hooks', {})) if case['kind'] != 'twin' else '[]'
     if case['kind'] == 'solve':
@@ -598,7 +605,6 @@ def _oracle_solve_t(case, obs, bad, t=None, before=None):
         s = case['subs'][comp - 1]
         return s['id'] in ids and i in s.get('endo', [])
     q = None
-    seed_ok, seed_seen = True, 0
     if o['offset'] != 0:
         q = p + o['offset']
         if q < 0 or q >= n:
@@ -624,10 +630,7 @@ def _oracle_solve_t(case, obs, bad, t=None, before=None):
                     fin, at_p, at_q = finals[comp]['vals'][i][p], initial(comp, i, p), initial(comp, i, q)
                     name = 'the linker\'s own L%d' % i if comp == 0 else 'V%d of submodel %r' % (i, known[comp - 1])
                     if seeds(comp, i):
-                        if fin == at_q and at_q != at_p:
-                            seed_seen += 1
                         if fin != at_q:
-                            seed_ok = False
                             bad('offset|not-seeded', 'offset=%d: endogenous %s at t was not seeded from t+offset (is %s, source %s)'
                                 % (o['offset'], name, fin, at_q))
                             break
@@ -697,24 +700,10 @@ def _oracle_solve_t(case, obs, bad, t=None, before=None):
         for sig, what in judge(c0_plain):
             bad(sig, what)
     else:
-        # the statement's run starts from the SEEDED values; the linker as it stands (finding #8) starts from the unseeded ones:
-        # failures that vanish when the unseeded start is assumed are instances of that finding and nothing else
+        # the run starts from the SEEDED values: the first iteration is compared with the check values read after the seeding
         c0_seeded = [[initial(c, i, q if seeds(c, i) else p) for i in chk] for c, chk in comps]
-        fails = judge(c0_seeded)
-        if fails:
-            alt = judge(c0_plain)
-            if not alt and not seed_ok:
-                pass        # already reported as offset|not-seeded: nothing was seeded, so the first comparison used the old values
-            elif not alt and not seed_seen:
-                # no row shows whether period t was seeded (every seedable row is overwritten by a script): the unseeded start
-                # explains the run — the kept finding
-                bad('offset|not-seeded', 'offset=%d: the first iteration was compared with the unseeded check values (%s)' % (o['offset'], fails[0][0]))
-            elif not alt:
-                bad('offset|stale-first-comparison', 'offset=%d: period t was seeded, but the first iteration was compared with the check '
-                    'values read BEFORE the seeding (%s)' % (o['offset'], fails[0][0]))
-            else:
-                for sig, what in alt:
-                    bad(sig, what)
+        for sig, what in judge(c0_seeded):
+            bad(sig, what)
 
 
 def _all_finite_case(sub):
@@ -733,6 +722,9 @@ def oracle(case, obs):
     if kind == 'ctor':
         subs = case['subs']
         out = obs['out']
+        if case.get('name') is not None and case['name'] in [s['id'] for s in subs]:
+            # outside C08's text (fix f5ef8bd, property C19's finding): judged by K only
+            return fails
         if not subs:
             if case.get('span') is None and (out != ['ret'] or obs['LAGS'] != 0 or obs['LEADS'] != 0):
                 bad('ctor|empty', 'a linker without submodels must have LAGS = LEADS = 0: %s' % obs)
@@ -822,12 +814,13 @@ def oracle(case, obs):
         lk = obs['subs'][0]
         in_span = -n <= case['t'] < n
         # "solves it to the same statuses, iteration counts and values as solving that model directly": compared whenever the
-        # call is meaningful for both (t inside the span, a valid errors= value, the model selected); offset is finding #8
-        in_scope = in_span and o['offset'] == 0 and o['errors'] in ERRMODES and _ids(case) == [s['id']]
+        # call is meaningful for both (t inside the span, a valid errors= value, the model selected)
+        in_scope = in_span and o['errors'] in ERRMODES and _ids(case) == [s['id']]
         if in_scope:
             a = (obs['out'][:2], lk['status'], lk['iters'], lk['vals'])
             b = (d['out'][:2], d['status'], d['iters'], d['vals'])
-            rejected = o['min_iter'] > o['max_iter'] or not (s.get('lags', 0) <= p < n - s.get('leads', 0))
+            rejected = (o['min_iter'] > o['max_iter'] or not (s.get('lags', 0) <= p < n - s.get('leads', 0))
+                        or (o['offset'] != 0 and not (0 <= p + o['offset'] < n)))
             if a != b:
                 what = 'linker %s / model %s' % ((obs['out'][:2], lk['status'][p], lk['iters'][p]), (d['out'][:2], d['status'][p], d['iters'][p]))
                 if not rejected and not _all_finite_case(s):
@@ -845,8 +838,8 @@ def oracle(case, obs):
 
 
 def guard(case, obs):
-    """No input class is exempt from K any more: the model mirrors the kept findings (offset ignored, no error policy)."""
-    return False        # finding #8 (offset ignored) is mirrored by the model: K is compared under an offset too           # finding #8: offset ignored by the linker
+    """No input class is exempt from K: the model mirrors the one kept finding (no error policy)."""
+    return False
 
 
 def nontrivial(case, obs):
@@ -1056,7 +1049,7 @@ def random_case(rng, kind='solve_t'):
         mn = rng.randint(0, max(mx, 0))
     opts = dict(min_iter=mn, max_iter=mx, tol=lib.fhex(tol), failures=rng.choice(['raise', 'ignore']),
                 errors=rng.choice(['raise'] * 3 + ['skip', 'ignore', 'replace', 'bogus']), catch_first_error=rng.random() < 0.6)
-    if rng.random() < (0.12 if kind != 'twin' else 0.06):
+    if rng.random() < (0.18 if kind != 'twin' else 0.15):
         opts['offset'] = rng.choice([-1, 1, -2, 2, n, -n, n - 1 - p, -p, n - p, -p - 1])
         if opts['offset'] == 0:
             opts['offset'] = 1
@@ -1355,6 +1348,8 @@ def ctor_cases(rng, count):
         c = {'kind': 'ctor', 'subs': subs, 'span': None, 'opts': mk_opts()}
         if rng.random() < 0.12:
             c['span'] = ['list', list(range(3))]
+        if rng.random() < 0.15:                    # an explicit linker name: a submodel id (DuplicateNameError) or another integer
+            c['name'] = rng.choice([s['id'] for s in subs] + [77, 78]) if subs else 77
         cases.append(c)
     return cases
 
@@ -1388,7 +1383,7 @@ def fixed_cases():
         out.append(mk_case(subs=two(settle([1.0]), settle([1.0])), max_iter=-1, failures=fl))
     # min_iter > max_iter: no guard in solve_t
     out.append(mk_case(subs=two(settle([1.0, 1.0, 1.0]), settle([1.0, 1.0, 1.0])), min_iter=3, max_iter=2, failures='ignore'))
-    # offset ignored / not rejected
+    # offset (honoured since fix 6298cba): seeded from t-1; out of span -> IndexError
     out.append(mk_case(subs=two(settle([1.0, 1.0]), settle([1.0, 1.0])), offset=-1, failures='ignore'))
     out.append(mk_case(subs=two(settle([1.0, 1.0]), settle([1.0, 1.0])), offset=-5, failures='ignore'))
     # all-vs-any across containers: only the linker's own variable / only the second submodel still moves
